@@ -47,6 +47,19 @@ def run(prop, tier, seed, workdir):
         l, v, t = 0x1100 + rnd.randint(0, 18), 0x1161 + rnd.randint(0, 20), 0x11A7 + rnd.randint(0, 27)
         strings.append([l, v] + ([t] if t > 0x11A7 else []))
         strings.append([0xAC00 + rnd.randint(0, 11171)])
+    # Hangul boundaries: the jamo just outside the L / V / T ranges (U+11A7 is TBase itself: assigned, but not a trailing consonant)
+    for l in (0x10FF, 0x1100, 0x1112, 0x1113):
+        for v in (0x1160, 0x1161, 0x1175, 0x1176):
+            for tt in (0x11A6, 0x11A7, 0x11A8, 0x11C2, 0x11C3):
+                strings.append([l, v, tt])
+            strings.append([l, v])
+    for syl in (0xAC00, 0xAC01, 0xAC1B, 0xAC1C, 0xD788, 0xD7A3, 0xABFF, 0xD7A4):
+        for tt in (0x11A7, 0x11A8, 0x11C2, 0x11C3, 0x1161):
+            strings.append([syl, tt])
+    for _ in range(60 if tier == "quick" else 399):
+        lv = 0xAC00 + 28 * rnd.randint(0, 398)
+        strings.append([lv, 0x11A7])
+        strings.append([lv, 0x11A8 + rnd.randint(0, 26)])
     marks = [cp for cp in mapped if unicodedata.combining(chr(cp))]
     starters = [0x41, 0x61, 0x45, 0x65, 0x4F, 0x6F, 0x55, 0x75, 0xC5, 0x212B, 0x1E0A, 0x3B1, 0x915, 0x1100, 0xAC00, 0x958]
     for _ in range(1500 if tier == "quick" else 40000):
@@ -129,7 +142,7 @@ def run(prop, tier, seed, workdir):
         states=r["distinct"], transitions=r["states"], traces_validated_against_impl=n, evaluations=n,
         distinct_nontrivial=len({tuple(m[3]) for m in meta.values() if m[0] == "n"}),
         rule="Norm.tla: TLC checks idempotence, NFD(NFC(s)) = NFD(s), NFC(NFD(s)) = NFC(s) and the length bounds on the UAX #15 definitions for all strings "
-             "of length <= %d over 14 critical code points; executions: every code point with a canonical mapping or a combining class singly, composing "
+             "of length <= %d over 15 critical code points; executions: every code point with a canonical mapping or a combining class singly, composing "
              "(starter, mark) pairs alone and with an interposed ccc-220 mark, Hangul L/V/T and syllables, seeded random starter+marks strings of length <= 12 "
              "(incl. > 10 marks), a seeded sample (thorough: all) of the other assigned code points, out-of-range and surrogate values, NFD and NFC, dmax "
              "from the documented minimum / exact fit to ample, each successful result normalized again; fold: iswfc vs towfc_s vs wcsfc_s for %d code "
